@@ -2,6 +2,7 @@ package rules
 
 import (
 	"go/token"
+	"go/types"
 	"strings"
 
 	"golang.org/x/tools/go/ssa"
@@ -214,6 +215,7 @@ func runC01(c *report.Ctx) {
 	ruleByteOrder(c, []string{pkgTxmgr}, 4)
 	ruleLayout(c, []string{"unspent-key", "credit-key", "outpoint-key", "txrecord-key", "credit-value", "unspent-value", "txrecord-value", "block-value", "block-key", "debit-value", "synced-block-value", "synced-to-value", "address-value", "balance-value"}, 40)
 	ruleRelevantIndex(c, 4)
+	ruleNoMemoryTipUnderUpdate(c)
 }
 
 func phiHasAppend(ph *ssa.Phi, depth int) bool {
@@ -734,8 +736,20 @@ func ruleNoSwallowedErrorInUpdate(c *report.Ctx, floor int) {
 						if succ[eb] {
 							continue
 						}
+						errVal := errResultOf(call)
 						srch := &an.Search{P: p, Fn: cl, GoalReturn: func(r *ssa.Return, pred *ssa.BasicBlock) bool {
-							return p.ClassifyReturn(r, pred) == an.RetSuccess
+							switch p.ClassifyReturn(r, pred) {
+							case an.RetSuccess:
+								return true
+							case an.RetMaybe:
+								// an error of unknown nil-ness is returned: fine only if it is this call's error
+								// (possibly through the variable it was assigned to); another variable's value may be nil
+								if errVal == nil || len(r.Results) == 0 {
+									return false
+								}
+								return !carriesValue(an.RetOperand(r, len(r.Results)-1), errVal, cl, 0)
+							}
+							return false
 						}, CutEdge: func(from, to *ssa.BasicBlock) bool { return to == ifb }}
 						// the error edge itself may carry the nil-ness of the error: start inside eb coming from ifb
 						if w := srch.Run(eb, 0, ifb); w != nil {
@@ -750,4 +764,74 @@ func ruleNoSwallowedErrorInUpdate(c *report.Ctx, floor int) {
 			c.OK(sk(cl), "no success return reachable from an error edge", posOf(c, s.Site))
 		}
 	}
+}
+
+// errResultOf: the SSA value of the call's error result (nil when it has none).
+func errResultOf(call *ssa.Call) ssa.Value {
+	if an.IsErrorType(call.Type()) {
+		return call
+	}
+	tup, ok := call.Type().(*types.Tuple)
+	if !ok || tup.Len() == 0 || !an.IsErrorType(tup.At(tup.Len()-1).Type()) {
+		return nil
+	}
+	for _, r := range *call.Referrers() {
+		if ex, ok := r.(*ssa.Extract); ok && ex.Index == tup.Len()-1 {
+			return ex
+		}
+	}
+	return nil
+}
+
+// carriesValue: can v be want — directly, through a phi, or through a local cell that want is stored into?
+func carriesValue(v, want ssa.Value, fn *ssa.Function, depth int) bool {
+	if depth > 5 {
+		return true // give up in favour of "carried": never report on an undecided shape
+	}
+	if v == want {
+		return true
+	}
+	switch x := v.(type) {
+	case *ssa.Phi:
+		for _, e := range x.Edges {
+			if carriesValue(e, want, fn, depth+1) {
+				return true
+			}
+		}
+	case *ssa.UnOp:
+		if x.Op == token.MUL {
+			// load of a cell: is want (or something carrying it) stored into that cell anywhere?
+			cell := x.X
+			found := false
+			scan := func(f *ssa.Function) {
+				an.Instrs(f, func(in ssa.Instruction) {
+					if st, ok := in.(*ssa.Store); ok && sameCell(st.Addr, cell) && carriesValue(st.Val, want, fn, depth+1) {
+						found = true
+					}
+				})
+			}
+			scan(fn)
+			return found
+		}
+	case *ssa.MakeInterface:
+		return carriesValue(x.X, want, fn, depth+1)
+	case *ssa.Call:
+		// wrapped: fmt.Errorf("…", err) and the like
+		for _, a := range x.Call.Args {
+			if carriesValue(a, want, fn, depth+1) {
+				return true
+			}
+		}
+		// variadic wrap: the args are packed into a slice
+		return true
+	}
+	return false
+}
+
+func sameCell(a, b ssa.Value) bool {
+	if a == b {
+		return true
+	}
+	// two FieldAddr/FreeVar views of the same variable
+	return false
 }
